@@ -10,7 +10,7 @@ machine on the generated tables (walked dictionaries = generated reset shape).  
 results that survive the switch must be the model's; where the model says "equal to a new object for
 every F" the implementation must be bitwise equal.  Oracle (independent of Lean): the fresh object.
 """
-import itertools, functools
+import itertools, functools, copy
 import numpy as np
 import common
 from common import Case, Failure
@@ -32,6 +32,8 @@ REPARAM = [
     ('MTCoherenceAnalyzer', dict(), [{'alpha': 0.1}]),
     ('SNRAnalyzer', dict(), [{'bandwidth': 0.1}, {'adaptive': True}]),
     ('SpectralAnalyzer', dict(), [{'BW': 0.1}, {'adaptive': True}]),
+    ('SparseCoherenceAnalyzer', dict(ij=[(0, 1), (1, 2)], method=dict(this_method='welch', NFFT=32, n_overlap=16), lb=0.05, ub=0.4),
+     [{'lb': 0.15}, {'ub': 0.25}]),
 ]
 SUBCLASSED = ['CorrelationAnalyzer', 'HilbertAnalyzer', 'NormalizationAnalyzer']
 _SUB = {}
@@ -45,6 +47,12 @@ def subclass_of(klass):
 
 def il(ids):
     ids = sorted(set(ids))
+    return ','.join(str(i) for i in ids) if ids else '-'
+
+
+def ol(ids):
+    """ordered id list"""
+    ids = list(ids)
     return ','.join(str(i) for i in ids) if ids else '-'
 
 
@@ -100,8 +108,20 @@ def experiments(seed, tier, rng):
         if tier == 'thorough':
             for _ in range(10):
                 presets.append([g for g in pub if rng.random() < 0.5])
+        def orders(pre):
+            """post-switch read orders: table order; and, when everything (or nothing) was read before the
+            switch, every public result FIRST once (hidden state written by one getter and preferred by
+            another is only visible when the reader comes before the writer)"""
+            out = [list(pub)]
+            if len(pre) == len(pub):
+                for g in pub[1:]:
+                    out.append([g] + [h for h in pub if h != g])
+            else:
+                out.append(list(reversed(pub)))
+            return out
         for variant in (1, 2, 3, 4):
             for pre in presets:
+              for post in orders(pre):
                 def make(build=build):
                     return build(0)[0]
 
@@ -113,8 +133,8 @@ def experiments(seed, tier, rng):
                 def fresh(build=build, variant=variant):
                     x = build(variant)[1][0]
                     return build(0, input=x)[0]
-                line = 'C14 retarget %s %s %s %s %s' % (cls, il(cfg), il(gid[g] for g in pre), il(gid[g] for g in pub), KINDS[variant])
-                E.append(Sw('set_input', cls, label, table, line, make, switch, fresh, pre, pub, KINDS[variant]))
+                line = 'C14 retarget %s %s %s %s %s' % (cls, il(cfg), il(gid[g] for g in pre), ol(gid[g] for g in post), KINDS[variant])
+                E.append(Sw('set_input', cls, label, table, line, make, switch, fresh, pre, post, KINDS[variant]))
         # user subclass that adds nothing
         if cls in SUBCLASSED:
             for pre in ([], list(pub)):
@@ -141,12 +161,12 @@ def experiments(seed, tier, rng):
         sid = {s: i for i, s in enumerate(table['slots'])}
         pub = [g for g in table['getters'] if not g.startswith('_')]
         x = oc._series(oc._rs(seed, 'reparam/' + cls), 4 if cls == 'SNRAnalyzer' else 3, 64)
-        obj0 = klass(x, **base)
+        obj0 = klass(x, **copy.deepcopy(base))
         cfg = oc.cfg_of(obj0, table)
         for ch in changes:
             for pre in ([], list(pub)):
                 def make(klass=klass, x=x, base=base):
-                    return klass(x, **base)
+                    return klass(x, **copy.deepcopy(base))
 
                 def switch(obj, ch=ch):
                     obj.reset()
@@ -155,32 +175,51 @@ def experiments(seed, tier, rng):
                     return obj
 
                 def fresh(klass=klass, x=x, base=base, ch=ch):
-                    return klass(x, **dict(base, **ch))
-                line = 'C14 reparam %s %s %s %s %s' % (cls, il(cfg), il(gid[g] for g in pre), il(sid[k] for k in ch), il(gid[g] for g in pub))
-                E.append(Sw('reparam', cls, '+'.join(sorted(ch)), table, line, make, switch, fresh, pre, pub, 'reset+' + '+'.join(sorted(ch))))
+                    return klass(x, **dict(copy.deepcopy(base), **ch))
+                for post in [list(pub)] + [[g] + [h for h in pub if h != g] for g in pub[1:]]:
+                    line = 'C14 reparam %s %s %s %s %s' % (cls, il(cfg), il(gid[g] for g in pre), il(sid[k] for k in ch), ol(gid[g] for g in post))
+                    E.append(Sw('reparam', cls, '+'.join(sorted(ch)), table, line, make, switch, fresh, pre, post, 'reset+' + '+'.join(sorted(ch))))
     # Epochs slicing, class and user subclass
     table = tb['Epochs']
     oc.wrap_getters(ts.Epochs, table['getters'])
     rs = oc._rs(seed, 'Epochs/slice')
     st = np.sort(rs.randint(0, 1000, 6)).astype(float)
     du = rs.randint(1, 50, 6).astype(float)
+    perm = [int(i) for i in rs.permutation(6)]
+    KEYS = [slice(1, 4), slice(0, 2), 3, -1, slice(None, None, -1), slice(None, None, 2), slice(4, 0, -2), slice(None),
+            [0, 0, 1, 1], perm, np.array(perm[::-1]), [5, 0, 3, 3, 1, 2], np.array([2, 2, 2, 2, 2, 2]),
+            np.array([True] * 6), np.array([True, False, True, True, False, True]), [1]]
     for sub in (False, True):
         for pre in ([], ['duration']):
-            for key in (slice(1, 4), slice(0, 2), 3):
-                def make(sub=sub):
-                    e = ts.Epochs(st, duration=du, time_unit='s')
-                    if sub:
-                        e.__class__ = subclass_of(ts.Epochs)
-                    return e
+            for ki, key in enumerate(KEYS):
+                for twice in (False, True):
+                    if twice and not isinstance(key, (list, np.ndarray)) and key not in (slice(None, None, -1), slice(None)):
+                        continue
 
-                def switch(obj, key=key):
-                    return obj[key]
+                    def make(sub=sub):
+                        e = ts.Epochs(st, duration=du, time_unit='s')
+                        if sub:
+                            e.__class__ = subclass_of(ts.Epochs)
+                        return e
 
-                def fresh(key=key):
-                    return ts.Epochs(st[key], duration=du[key], time_unit='s')
-                nm = ('sub:' if sub else '') + 'Epochs'
-                line = 'C14 slice %s - %s %s' % (nm, il([0] if pre else []), str(key).replace(' ', '').replace('slice', 'k'))
-                E.append(Sw('slice', nm, 'key=%s' % (key,), table, line, make, switch, fresh, pre, ['duration'], 'slice'))
+                    def switch(obj, key=key, twice=twice):
+                        r = obj[key]
+                        if twice:          # select, read, select again with a reordering of the same length
+                            _ = r.duration
+                            r = r[::-1]
+                        return r
+
+                    def fresh(key=key, twice=twice):
+                        k = np.asarray(key) if isinstance(key, list) else key
+                        s2, d2 = st[k], du[k]
+                        if twice:
+                            s2, d2 = s2[::-1], d2[::-1]
+                        return ts.Epochs(s2, duration=d2, time_unit='s')
+                    nm = ('sub:' if sub else '') + 'Epochs'
+                    kt = 'key%d%s' % (ki, 'r' if twice else '')
+                    line = 'C14 slice %s - %s %s' % (nm, il([0] if pre else []), kt)
+                    E.append(Sw('slice', nm, 'key=%s%s' % (str(key).replace('\n', ''), ' then [::-1]' if twice else ''), table, line, make, switch, fresh, pre,
+                                ['duration'], 'slice'))
     return E
 
 
